@@ -45,3 +45,29 @@ def search(pid, obligation, seed, budget_s=None, out_dir=None):
     elif p.returncode == 2:
         res['error'] = 'rt runner undecided: ' + (p.stdout.strip().split('\n') or [''])[-1][:300]
     return res
+
+
+def replay(rep):
+    """Re-execute the concrete input of a replay file against the REAL code of the current tree.  -> True when the violation is reproduced."""
+    ci = rep.get('concrete_input')
+    pid = rep['property']
+    if isinstance(ci, dict) and (ci.get('scenario') or ci.get('suite') or ci.get('ciphersuite')):
+        tmp = os.path.join(VERIF, 'build', 'replay-%s-%d.json' % (pid, os.getpid()))
+        os.makedirs(os.path.dirname(tmp), exist_ok=True)
+        json.dump(ci, open(tmp, 'w'))
+        cmd = [sys.executable, RUNNER, pid, '--repo', REPO, '--replay', tmp, '--target-dir', os.path.join(VERIF, 'build', 'rt-target')]
+        p = subprocess.run(cmd, capture_output=True, text=True, timeout=3600)
+        sys.stderr.write(p.stdout[-1500:])
+        return p.returncode == 1
+    if isinstance(ci, dict) and ci.get('name') or (isinstance(rep.get('obligation'), str) and rep['obligation'].startswith('kani :: ')):
+        # a Kani counterexample: re-run the harness on the current tree (its concrete playback test is stored in the replay file)
+        name = rep['obligation'].split('kani :: ', 1)[1]
+        out = os.path.join(VERIF, 'build', 'replay-kani-%d.json' % os.getpid())
+        cmd = [sys.executable, os.path.join(VERIF, 'kani', 'run_kani.py'), '--harness', name, '--out', out]
+        subprocess.run(cmd, capture_output=True, text=True, timeout=7200, env=dict(os.environ, VERIF_REPO=REPO))
+        try:
+            hs = json.load(open(out)).get('harnesses', [])
+            return any(h['name'] == name and h['status'] == 'fail' for h in hs)
+        except Exception:
+            return False
+    return False
